@@ -194,7 +194,7 @@ def run(ctx):
             where(src, src.node), "JoinGroup/Heartbeat sent to a broker that is not the coordinator")
 
     # ---- R7 fallback order
-    r = ctx.rule("R7", "broker-agnostic: all known brokers connected-first, then every bootstrap host, then the unavailable error", 4, "B")
+    r = ctx.rule("R7", "broker-agnostic: all known brokers connected-first, then every bootstrap host, then the unavailable error", 5, "B")
     sbu = ctx.func(KC + "._send_broker_unaware_request")
     cu = ctx.cfg(sbu)
     def _all_keys_of(e, table):  # a fresh list of every key of the mapping: list(T), list(T.keys()), [k for k in T]
@@ -224,6 +224,27 @@ def run(ctx):
         okx = okx and cu.exit.id not in arm and cu.raise_exit.id not in arm and lp[0].id in cu.reach([e.id])
     r.check(okx, "%s#failure-falls-through" % sbu.qname, "a failed broker ends the attempt instead of trying the next one", where(sbu, sbu.node),
             "one unreachable broker makes metadata loading fail although others are up")
+    # the loop runs over a snapshot of the broker ids and suspends in its body: the address book can lose a broker
+    # meanwhile (a full refresh answered to another lookup).  Whatever looks an id up in the book again (the broker-client
+    # getter does) is reached only with the id re-validated - or sits inside the try whose handlers go on to the next one
+    fu_ = ctx.facts(sbu)
+    if lp:
+        lv_ = unparse(lp[0].stmt.target)
+        body_ = cu.reach([lp[0].id], avoid=[t for t, lab in cu.succ[lp[0].id] if lab == ("iter", False)])
+        susp_ = any(cu.nodes[i].suspends for i in body_)
+        for n in [cu.nodes[i] for i in sorted(body_)]:
+            for c in n.calls():
+                if call_name(c) == "_get_brokerclient" and call_recv(c) == "self":
+                    revalidated = ("%s in self._brokers" % lv_, True) in fu_[n.id] or ("%s not in self._brokers" % lv_, False) in fu_[n.id]
+                    falls_through = any(lab == ("exc",) and cu.nodes[t].kind == "except" and lp[0].id in cu.reach([t]) and
+                                        cu.raise_exit.id not in cu.reach([t], avoid=[lp[0].id]) and (
+                                            cu.nodes[t].stmt.type is None or "KeyError" in norm(cu.nodes[t].stmt.type) or norm(cu.nodes[t].stmt.type) in ("Exception", "BaseException"))
+                                        for t, lab in cu.succ[n.id])
+                    r.check(revalidated or falls_through or not susp_, "%s#snapshot-loop-revalidates" % sbu.qname,
+                            "the broker loop runs over a snapshot of the known ids and suspends, but looks `%s` up again without checking that it "
+                            "is still known" % lv_, where(sbu, c), "a full metadata refresh removes a broker that has not been tried yet while an "
+                            "earlier one is awaited; that one fails: the lookup of the removed id raises KeyError and the operation fails "
+                            "at once - the remaining brokers and the bootstrap hosts are never tried")
     bs = [n for n in cu.nodes if any(call_name(c) == "_send_bootstrap_request" for c in n.calls())]
     lbody = cu.reach([lp[0].id], avoid=[t for t, lab in cu.succ[lp[0].id] if lab == ("iter", False)]) if lp else set()
     r.check(len(bs) == 1 and bs[0].id not in lbody and cu.dominates([lp[0].id], bs[0].id) if lp else False, "%s#bootstrap-after-brokers" % sbu.qname,
@@ -280,6 +301,10 @@ def run(ctx):
 
 
 MUTANTS = [
+    {"id": "unaware-loop-no-revalidation", "file": "client.py",
+     "old": "            if node_id not in self._brokers:\n                # A metadata refresh removed this broker while an earlier one\n                # was being tried: there is nobody to ask, go on to the next\n                continue\n",
+     "new": "", "expect": "C07.R7", "note": "finding F34"},
+
     {"id": "grouped-by-metadata-tuple", "file": "client.py",
      "edits": [("client.py", "            payloads_by_broker[leader.node_id].append(payload)", "            payloads_by_broker[leader].append(payload)"),
                ("client.py", "        for node_id, payloads in payloads_by_broker.items():\n            broker = self._get_brokerclient(node_id)",
